@@ -120,6 +120,7 @@ impl TypeAggregator {
                 // New version is higher: remove old entry, insert new name
                 let merged_kind = self.imports.shift_remove(&existing_name).unwrap();
                 self.imports.insert(name.to_string(), merged_kind);
+                self.rename_interface(merged_kind, &existing_name, name);
                 // Update any existing redirects that pointed to the old name
                 for redirect in self.name_redirects.values_mut() {
                     if *redirect == existing_name {
@@ -139,6 +140,20 @@ impl TypeAggregator {
         let prev = self.imports.insert(name.to_string(), remapped);
         assert!(prev.is_none());
         Ok(self)
+    }
+
+    /// Renames the interface of a merged import from its previous name to the
+    /// name that superseded it.
+    ///
+    /// Used types of other imports refer to their interface by its id, so the
+    /// id must follow the import when a higher version takes over the import.
+    fn rename_interface(&mut self, kind: ItemKind, from: &str, to: &str) {
+        if let ItemKind::Instance(id) = kind {
+            let interface = &mut self.types[id];
+            if interface.id.as_deref() == Some(from) {
+                interface.id = Some(to.to_string());
+            }
+        }
     }
 
     fn merge_item_kind(
